@@ -39,8 +39,12 @@ pub fn sq(p: Position) -> usize { (p.row() as usize) * 8 + p.col() as usize }
 
 pub fn board_of(g: &Game) -> spec::Board {
     let mut b = [0u8; 64];
-    let mut i = 0;
-    while i < 64 { b[i] = code_of(g.board[i]); i += 1; }
+    let mut r = 0;
+    while r < 8 {
+        let mut f = 0;
+        while f < 8 { b[r * 8 + f] = code_of(g.board[r * 8 + f]); f += 1; }
+        r += 1;
+    }
     b
 }
 
